@@ -1507,9 +1507,9 @@ inline void world::do_app( const sim::Op& op )
     case 2:                                                                           // disconnect
         if ( p_connected_ && established_ ) { result = ll_.app( 2, a, b ); local_disconnect_requested_ = true; expected_close_reason_ = 0x16; }
         break;
-    case 3: if ( p_connected_ && established_ ) { result = ll_.app( 3, a, b ); if ( result ) { ++app_param_req_; last_app_procedure_call_local_us_ = r_.now_us; if ( app_procedure_started_local_us_ < 0 ) app_procedure_started_local_us_ = r_.now_us; } } break;
+    case 3: if ( p_connected_ && established_ ) { result = ll_.app( 3, a, b ); if ( result ) { ++app_param_req_; last_app_procedure_call_local_us_ = r_.now_us; if ( proc_watch_ ) proc_watch_since_local_us_ = r_.now_us;   /* a request the link layer accepts while one is open starts its response timer anew */ if ( app_procedure_started_local_us_ < 0 ) app_procedure_started_local_us_ = r_.now_us; } } break;
     case 4: if ( p_connected_ && established_ ) { result = ll_.app( 4, a, b ); if ( result ) ++app_phy_req_; } break;
-    case 5: if ( p_connected_ && established_ ) { result = ll_.app( 5, a, b ); if ( result ) { app_version_req_ = true; relax_version_expectations(); last_app_procedure_call_local_us_ = r_.now_us; if ( app_procedure_started_local_us_ < 0 ) app_procedure_started_local_us_ = r_.now_us; } } break;
+    case 5: if ( p_connected_ && established_ ) { result = ll_.app( 5, a, b ); if ( result ) { app_version_req_ = true; relax_version_expectations(); last_app_procedure_call_local_us_ = r_.now_us; if ( proc_watch_ ) proc_watch_since_local_us_ = r_.now_us; if ( app_procedure_started_local_us_ < 0 ) app_procedure_started_local_us_ = r_.now_us; } } break;
     case 6:                                                                           // white list
         if ( ll_.has_white_list )
         {
